@@ -1,7 +1,309 @@
 import Driver.Wire
-/-! Driver commands of the Total area (filled in by the area's owner). -/
-namespace Marwood.Driver.Total
+import Driver.Store
+import Driver.Num
+import Driver.Reader
+import Marwood.Gen.Builtins
+import Marwood.Total
+/-!
+Driver commands of the Total area (C06).
 
-def handle (_cmd : String) (_args : List String) : Option String := none
+* `call <name> <tok>…` / `xcall …` — outcome CLASS of the builtin call `(name arg…)` on the boundary
+  palette of `harness/src/bin/total.rs`: `ok | err <class> | err | panic <site> | diverge | no-model`.
+  Order of the answer: (1) the regenerated table `Gen.builtins` decides arity errors of the Rust
+  builtins; (2) all-numeric arguments go to the Num model (`Driver.Num.modelScm`, class only);
+  (3) arguments representable in the Store model go to `Driver.Store.runModel` (`list?` to the
+  repaired `isListTH`); (4) otherwise `no-model` — the exploration alone stands for that case.
+* `value <tok>`  — class of using the palette value as the value of an evaluation (`ok`, or
+  `diverge` for circular structure: the result conversion recurses without bound).
+* `palette <tok>` — the wire form of the palette value (cross-check of this table against the real VM).
+* `text <enc>`   — `scan=<class> parse=<class>` of the text entry points from the Lex/Parse models.
+* `gen <name>`   — the arity window of the regenerated table.
+-/
+namespace Marwood.Driver.Total
+open Marwood Marwood.Wire Marwood.Store
+
+/-- token ↦ wire datum of every non-circular palette value (checked against the real VM on every run) -/
+def paletteWire : List (String × String) := [
+  ("0", "fix:0"),
+  ("-1", "fix:-1"),
+  ("1", "fix:1"),
+  ("2", "fix:2"),
+  ("3", "fix:3"),
+  ("10", "fix:10"),
+  ("37", "fix:37"),
+  ("55296", "fix:55296"),
+  ("1114112", "fix:1114112"),
+  ("1000000", "fix:1000000"),
+  ("i32max", "fix:2147483647"),
+  ("i32min", "fix:-2147483648"),
+  ("i32max+1", "fix:2147483648"),
+  ("i32min-1", "fix:-2147483649"),
+  ("i64max", "fix:9223372036854775807"),
+  ("i64min", "fix:-9223372036854775808"),
+  ("i64max+1", "big:9223372036854775808"),
+  ("i64min-1", "big:-9223372036854775809"),
+  ("u64max", "big:18446744073709551615"),
+  ("2^64", "big:18446744073709551616"),
+  ("big", "big:100000000000000000000000000000000000000"),
+  ("-big", "big:-100000000000000000000000000000000000000"),
+  ("1/2", "rat:1/2"),
+  ("-1/2", "rat:-1/2"),
+  ("rat31", "rat:2147483647/2147483646"),
+  ("ratmin", "rat:-2147483648/3"),
+  ("ratbig", "flo:43fce97ca0f21055"),
+  ("0.0", "flo:0000000000000000"),
+  ("-0.0", "flo:8000000000000000"),
+  ("1.5", "flo:3ff8000000000000"),
+  ("-2.5", "flo:c004000000000000"),
+  ("1e308", "flo:7fe1ccf385ebc8a0"),
+  ("1e19", "flo:43e158e460913d00"),
+  ("5e-324", "flo:0000000000000001"),
+  ("+inf", "flo:7ff0000000000000"),
+  ("-inf", "flo:fff0000000000000"),
+  ("nan", "flo:fff8000000000000"),
+  ("ch-a", "c97"),
+  ("ch-A", "c65"),
+  ("ch-0", "c0"),
+  ("ch-9", "c57"),
+  ("ch-sp", "c32"),
+  ("ch-lam", "c955"),
+  ("ch-ss", "c223"),
+  ("ch-max", "c1114111"),
+  ("s-empty", "str:-"),
+  ("s-a", "str:97"),
+  ("s-abc", "str:97,98,99"),
+  ("s-uni", "str:955,120,8594,223,119070"),
+  ("s-num", "str:49,48"),
+  ("s-1e400", "str:49,101,52,48,48"),
+  ("s-lit", "str:108,105,116"),
+  ("sym", "sym:97"),
+  ("sym-uni", "sym:955"),
+  ("sym-quote", "sym:113,117,111,116,101"),
+  ("#t", "b1"),
+  ("#f", "b0"),
+  ("nil", "nil"),
+  ("l1", "pair fix:1 nil"),
+  ("l3", "pair fix:1 pair fix:2 pair fix:3 nil"),
+  ("l-chars", "pair c97 pair c955 nil"),
+  ("l-dot", "pair fix:1 fix:2"),
+  ("l-dot3", "pair fix:1 pair fix:2 fix:3"),
+  ("l-shared", "pair pair fix:1 pair fix:2 nil pair pair fix:1 pair fix:2 nil nil"),
+  ("l-alist", "pair pair fix:1 fix:2 pair pair sym:97 sym:98 pair fix:3 nil"),
+  ("l-lit", "pair fix:1 pair fix:2 nil"),
+  ("l-expr", "pair sym:43 pair fix:1 pair fix:2 nil"),
+  ("l-nest", "pair pair pair pair pair pair pair pair fix:1 nil nil nil nil nil nil nil nil"),
+  ("v0", "vec0"),
+  ("v1", "vec1 fix:1"),
+  ("v3", "vec3 fix:1 fix:2 fix:3"),
+  ("v-chars", "vec2 c97 c955"),
+  ("v-lit", "vec2 fix:1 fix:2"),
+  ("v-shared", "vec2 vec2 fix:1 fix:2 vec2 fix:1 fix:2"),
+  ("v-nest", "vec1 vec1 vec1 pair vec0 nil"),
+  ("p-builtin", "proc:99,97,114"),
+  ("p-lambda", "proc:40,955,32,40,120,41,41"),
+  ("p-varargs", "proc:40,955,32,97,114,103,115,41"),
+  ("p-thunk", "proc:40,955,32,40,41,41"),
+  ("p-prelude", "proc:40,955,32,40,108,105,115,116,41,41"),
+  ("p-closure", "proc:40,955,32,40,120,41,41"),
+  ("cont", "cont"),
+  ("macro", "macro"),
+  ("unspec", "void"),
+  ("l-proc", "pair sym:113,117,111,116,101 pair proc:99,97,114 nil"),
+  ("v-proc", "vec1 proc:99,97,114"),
+  ("l-cont", "pair cont nil"),
+  ("l-unspec", "pair void nil")
+]
+
+def circTokens : List String := ["circ-cdr", "circ-self", "circ-car", "circ-vec", "circ-vl", "circ-lv"]
+
+def decPalette (tok : String) : Option Datum := do
+  let w ← paletteWire.lookup tok
+  let (d, rest) ← decDatum ((w.splitOn " ").filter (· ≠ ""))
+  if rest.isEmpty then some d else none
+
+/-! ## loading palette values into the Store model -/
+
+def resOk : Marwood.Store.Res → Option (Store × VCell)
+  | .ok r => some r
+  | _ => none
+
+/-- a datum as the VM builds it (`cons` / `vector` / string and symbol cells); `none` when the
+    Store model has no such value (rationals, doubles, closures, continuations, macros) -/
+partial def load (s : Store) : Datum → Option (Store × VCell)
+  | .bool b => some (s, .bool b)
+  | .char c => some (s, .char c)
+  | .nil => some (s, .nil)
+  | .void => some (s, .void)
+  | .undefined => some (s, .undef)
+  | .num (.fix n) => some (s, .num n)
+  | .num (.big n) => some (s, .num n)
+  | .num _ => none
+  | .sym t => some (s.put (.sym t))
+  | .str t => let (s, v) := s.newStr t; some (s.put v)
+  | .pair a d => do
+    let (s, av) ← load s a
+    let (s, dv) ← load s d
+    resOk (Store.cons s [av, dv])
+  | .vec e => do
+    let (s, vs) ← e.listElems.foldlM (init := (s, ([] : List VCell))) fun (acc : Store × List VCell) x => do
+      let (s, v) ← load acc.1 x
+      pure (s, acc.2 ++ [v])
+    resOk (Store.vector s vs)
+  | .procedure (some d) => if d == "car".toList then some (s.put (.builtin "car")) else none
+  | _ => none
+
+/-- the circular palette values, built the way the Scheme expressions build them -/
+def loadCirc (s : Store) (tok : String) : Option (Store × VCell) := do
+  let (s, one) := s.put (.num 1)
+  let (s, two) := s.put (.num 2)
+  let (s, nilv) := s.put .nil
+  let o ← (one.asPtr : Outcome Nat) |> fun | .ok a => some a | _ => none
+  let t ← (two.asPtr : Outcome Nat) |> fun | .ok a => some a | _ => none
+  let n ← (nilv.asPtr : Outcome Nat) |> fun | .ok a => some a | _ => none
+  let okS : Outcome Store → Option Store := fun | .ok s => some s | _ => none
+  match tok with
+  | "circ-cdr" =>
+    -- (let ((c (list 1 2))) (set-cdr! (cdr c) c) c)
+    let (s, p2) := s.alloc (.pair t n)
+    let (s, p1) := s.alloc (.pair o p2)
+    let s ← okS (s.setCell p2 (.pair t p1))
+    some (s, .ptr p1)
+  | "circ-self" =>
+    let (s, p1) := s.alloc (.pair o n)
+    let s ← okS (s.setCell p1 (.pair o p1))
+    some (s, .ptr p1)
+  | "circ-car" =>
+    let (s, p2) := s.alloc (.pair t n)
+    let (s, p1) := s.alloc (.pair o p2)
+    let s ← okS (s.setCell p1 (.pair p1 p2))
+    some (s, .ptr p1)
+  | "circ-vec" =>
+    let (s, v) := s.newVec [.num 1, .num 2]
+    let (s, a) := s.alloc v
+    let id := s.vecs.length - 1
+    let s ← okS (s.vecSet id [.ptr a, .num 2])
+    some (s, .ptr a)
+  | "circ-vl" =>
+    let (s, v) := s.newVec [.num 1]
+    let (s, a) := s.alloc v
+    let id := s.vecs.length - 1
+    let (s, b) := s.alloc (.pair a n)
+    let s ← okS (s.vecSet id [.ptr b])
+    some (s, .ptr a)
+  | "circ-lv" =>
+    let (s, p2) := s.alloc (.pair t n)
+    let (s, p1) := s.alloc (.pair o p2)
+    let (s, v) := s.newVec [.ptr p1]
+    let (s, a) := s.alloc v
+    let s ← okS (s.setCell p2 (.pair a n))
+    some (s, .ptr p1)
+  | _ => none
+
+def loadTok (s : Store) (tok : String) : Option (Store × VCell) :=
+  if circTokens.contains tok then loadCirc s tok
+  else (decPalette tok).bind (load s)
+
+def loadArgs (s : Store) : List String → Option (Store × List VCell)
+  | [] => some (s, [])
+  | t :: ts => do
+    let (s, v) ← loadTok s t
+    let (s, vs) ← loadArgs s ts
+    some (s, v :: vs)
+
+/-! ## classes -/
+
+def errClass : Err → String
+  | .arity => "arity"
+  | .pair => "type"
+  | .type => "type"
+  | .syntax => "syntax"
+  | .vindex => "range"
+  | .sindex => "range"
+  | .unbound => "unbound"
+  | .notProc => "not-procedure"
+
+def classOfRes : Marwood.Store.Res → String
+  | .ok _ => "ok"
+  | .err e => "err " ++ errClass e
+  | .panic site => "panic " ++ site.replace " " "_"
+  | .diverge => "diverge"
+
+def classOfNum (r : String) : String :=
+  if r.startsWith "ok" then "ok"
+  else if r.startsWith "err" then "err"
+  else "panic num-model"
+
+def numOfTok (tok : String) : Option Marwood.Num :=
+  match decPalette tok with
+  | some (.num n) => some n
+  | _ => none
+
+def genWindow (name : String) : Option (Nat × Option Nat) :=
+  (Marwood.Gen.builtins.find? (·.1 == name)).map (·.2)
+
+def outsideWindow (w : Nat × Option Nat) (argc : Nat) : Bool :=
+  argc < w.1 || (match w.2 with | some mx => argc > mx | none => false)
+
+def callClass (name : String) (toks : List String) : Option String := do
+  -- every token must be a palette token
+  if !(toks.all fun t => circTokens.contains t || (paletteWire.lookup t).isSome) then none
+  let arityErr := match genWindow name with
+    | some w => outsideWindow w toks.length
+    | none => false
+  if arityErr then some "err arity"
+  else
+    match toks.mapM numOfTok with
+    | some nums =>
+      match (if nums.isEmpty then none else Marwood.Driver.Num.modelScm name nums) with
+      | some r => some (classOfNum r)
+      | none => storeClass name toks
+    | none => storeClass name toks
+where
+  storeClass (name : String) (toks : List String) : Option String :=
+    match loadArgs Store.empty toks with
+    | none => some "no-model"
+    | some (s, args) =>
+      let fuel := 4 * (Marwood.Driver.Store.fuelOf s) + 64
+      if name == "list?" then some (classOfRes (isListTH fuel s args))
+      -- the C14 driver's `map` / `for-each` know only the callees C14 generates and answer an arity
+      -- error for the list-less call, which the prelude definition does not: no model here
+      else if name == "map" || name == "for-each" then some "no-model"
+      else
+        match Marwood.Driver.Store.runModel (Marwood.Driver.Store.tableOf []) s name args with
+        | some r => some (classOfRes r)
+        | none => some "no-model"
+
+def valueClass (tok : String) : Option String :=
+  if circTokens.contains tok then some "diverge"
+  else (paletteWire.lookup tok).map fun _ => "ok"
+
+def parseClass (e : ParseErr) : String :=
+  match e with
+  | .lex _ => "err_parse-other"   -- `parse::Error::LexError` inside `Error::ParseError`
+  | .incomplete => "err_parse-incomplete"
+  | _ => "err_parse-other"
+
+def textClass (cs : Text) : String :=
+  let sc := match scan cs with
+    | .ok _ => "ok"
+    | .error _ => "err_lex"
+  let pc := match parseText (Marwood.Driver.Reader.oracleOps []) cs with
+    | .ok (d, _) => if Marwood.Driver.Reader.datumPoisoned d then "unknown" else "ok"
+    | .err e => parseClass e
+    | .panic m => "panic_" ++ m.replace " " "_"
+  s!"scan={sc} parse={pc}"
+
+def handle (cmd : String) (args : List String) : Option String :=
+  match cmd, args with
+  | "call", name :: toks => callClass name toks
+  | "xcall", name :: toks => callClass name toks
+  | "value", [tok] => valueClass tok
+  | "palette", [tok] =>
+    if circTokens.contains tok then some "circular"
+    else (paletteWire.lookup tok).map fun w => "ok " ++ w
+  | "text", [t] => (decText t).map textClass
+  | "gen", [name] => (genWindow name).map fun w =>
+      s!"{w.1} " ++ (match w.2 with | some m => toString m | none => "inf")
+  | _, _ => none
 
 end Marwood.Driver.Total
